@@ -738,6 +738,14 @@ def adt_aliases(d):
         mod = old.split("::")[0]
         if len(cands) == 1 and len(rivals) == 1 and any(p.split("::")[0] == mod for p in have):
             out[cands[0]] = old
+            continue
+        # moved under its own name and given more derives on the way (`Copy` is part of the
+        # signature): the same name with the same fields is the same type
+        last = old.rsplit("::", 1)[-1]
+        shape = sig.rsplit("|copy=", 1)[0]
+        c2 = [p for p, s2 in fresh.items() if p.rsplit("::", 1)[-1] == last and s2.rsplit("|copy=", 1)[0] == shape]
+        if len(c2) == 1 and c2[0] not in out:
+            out[c2[0]] = old
     # a public type moved into another (private) module and re-exported at its old path: same
     # name, same fields, old definition path gone
     pub_anchors = (_ANCHORS or {}).get("adts_pub", {})
@@ -788,6 +796,17 @@ class FactBase:
                 raw = re.sub(re.escape(json.dumps(new_p)[1:-1]) + r"(?![A-Za-z0-9_])", lambda m, o=json.dumps(old_p)[1:-1]: o, raw)
             self.d = json.loads(raw)
         self.type_aliases = ta
+        # a trait impl written in another module than its (local) type is printed
+        # `module::<impl Trait for Type>::method`: it is `<Type as Trait>::method` wherever it stands
+        if "<impl " in raw and " for " in raw:
+            local_adts2 = sorted({a["path"] for a in self.d["adts"]}, key=len, reverse=True)
+            if local_adts2:
+                import re as _re2
+                pat2 = _re2.compile(r"(?<![A-Za-z0-9_:<])(?:[a-z_][a-z0-9_]*::)+<impl ([A-Za-z_][A-Za-z0-9_:]*(?:<[^<>]*>)?) for (" + "|".join(_re2.escape(json.dumps(a)[1:-1]) for a in local_adts2) + r")>::")
+                raw3 = pat2.sub(lambda m: "<%s as %s>::" % (m.group(2), m.group(1)), raw)
+                if raw3 != raw:
+                    raw = raw3
+                    self.d = json.loads(raw)
         self.aliases = rename_aliases(self.d)
         if self.aliases:
             # a renamed / moved private function is analysed under the path the rules know
